@@ -133,6 +133,8 @@ def run_plan(plan: dict) -> RunResult:
         circuit = region.circuit
 
         # ---- subscribers ------------------------------------------------------------------------
+        from hippolyzer.lib.base.message.circuit import ReliableResendInfo
+        BUDGET = ReliableResendInfo.__dataclass_fields__["tries_left"].default    # the declared retry budget
         calls: Dict[Tuple[str, int], int] = {}     # (subscriber, tag) -> invocations
 
         def tag_of(msg):
@@ -183,7 +185,7 @@ def run_plan(plan: dict) -> RunResult:
                 if rec["done_at"] is not None:
                     return violate("C19/resend/after-completion", pid=p.pid, done_at=rec["done_at"], now=e.t)
                 rec["transmissions"] += 1
-                if rec["transmissions"] > 10:
+                if rec["transmissions"] > BUDGET:
                     return violate("C19/resend/over-budget", pid=p.pid, transmissions=rec["transmissions"])
                 return
             if p.pid <= last_first_pid[0]:
@@ -371,8 +373,8 @@ def run_plan(plan: dict) -> RunResult:
                     if rec.get("failed_exc") != "TimeoutError":
                         violate("C19/complete/wrong-failure", pid=pid, exc=rec.get("failed_exc"))
                         break
-                    if rec.get("failed_tx") != 10:
-                        violate("C19/resend/budget", pid=pid, transmissions_at_failure=rec.get("failed_tx"), want=10)
+                    if rec.get("failed_tx") != BUDGET:
+                        violate("C19/resend/budget", pid=pid, transmissions_at_failure=rec.get("failed_tx"), want=BUDGET)
                         break
                     res.probe("budget_exhausted")
         if not stopped:
